@@ -84,6 +84,23 @@ def run(chk):
             chk.violation("simulate", c, {"exception": o.get("exc"), "msg": o.get("msg")}, "simulation of a valid GHE succeeds")
             continue
         nontrivial += oracle(chk, c, o)
+    # translation validation of the regenerated hourly-sequence expressions on one real multi-year hourly run
+    if getattr(chk, "model_ok", False):
+        for c, o in zip(cases, outs):
+            if o.get("ok") and o.get("sequence") and o.get("q_at") and c.get("months", 12) > 12:
+                steps = sorted(int(k) for k in o["q_at"])
+                txt = ("From Coq Require Import ZArith QArith List Bool.\nFrom GHE Require Import Base.QUtil gen.Src.\nImport ListNotations. Open Scope Q_scope.\n"
+                       f"Definition year : list Q := {qlist(o['raw_year_W'])}.\n"
+                       f"Definition nh := hourly_n_hours {q(c['months'])}.\nDefinition sq := hourly_tile year (hourly_n_years nh) nh.\n"
+                       f"Definition want : list (nat * Q) := [{'; '.join(f'({st - 1}%nat, {q(o['q_at'][str(st)])})' for st in steps)}].\n"
+                       f"Eval vm_compute in (Nat.eqb (length sq) {o['sequence']['steps']}, forallb (fun p => qeqb (nth (fst p) sq 0) (snd p)) want).\n")
+                rcq, outq, errq = chk.coq_eval("hourlyseq", txt, timeout=600)
+                if rcq != 0 or "(true, true)" not in " ".join(outq.split()):
+                    chk.broken.append({"name": "translation validation C09: the regenerated hourly load-sequence expressions (n_hours, n_years, repetition and cut) differ from what GHE.simulate superposed",
+                                       "detail": (errq or outq)[-300:]})
+                else:
+                    chk.cov["traces_validated_against_impl"] = chk.cov.get("traces_validated_against_impl", 0) + len(steps) + 1
+                break
     # metamorphic properties on the real GHE.simulate: zero load, scaling, ground temperature shift
     base = dict(cases[0], steps=30, want_K=False)
     meta = [dict(base), dict(base, scale=0.0), dict(base, scale=2.5), dict(base, ugt=base["ugt"] + 3.0), dict(base, scale=-1.0)]
@@ -138,7 +155,7 @@ Eval vm_compute in (length res, length (filter negb res)).
             tot += int(m.group(1)); bad += int(m.group(2))
         if bad:
             chk.broken.append({"name": "correspondence C09: Model/Superpos.simulate differs from BaseGHE._simulate_detailed", "detail": f"{bad} of {tot} steps"})
-        chk.cov["traces_validated_against_impl"] = tot - bad
+        chk.cov["traces_validated_against_impl"] = chk.cov.get("traces_validated_against_impl", 0) + (tot - bad)
         chk.cov["correspondence_cases"] = tot
     chk.cov["distinct_nontrivial"] = nontrivial
     chk.cov["rule"] = ("real GHE objects (1-12 boreholes, real pygfunction g-functions, four pipe types, both flow specifications, hybrid and hourly methods); every one of the first 45-60 steps "
